@@ -13,6 +13,7 @@ import (
 	"bytes"
 	"crypto/cipher"
 	"fmt"
+	"time"
 
 	"golang.org/x/crypto/chacha20poly1305"
 	"golang.org/x/crypto/nacl/box"
@@ -160,12 +161,19 @@ func run(c *vf.Ctx) {
 		"same-length AD agreeing on the first 13/16/32 bytes, AD cut to its length mod 256, +-1/16/256 bytes, every tag bit; " +
 		"plus the STEERED-ACCUMULATOR family (messages crafted with math/big so that the AEAD code's own Poly1305 accumulator has chosen limb values before the lengths block and before the final reduction, 15 lengths x AD {0,1,13,16,17} x both nonce sizes): " +
 		"genuine tag accepted; tag +-1 in either 64-bit half and the tags obtained by dropping/duplicating the carry out of the low or middle limb when the lengths block is added are rejected (dst nil and in place); " +
+		"plus the BLOCK family: genuine messages of EVERY length 0..1024 (thorough 0..2048; AD 13, and empty AD up to 320, thorough 1024) and of the long lengths 2^k+{-1,0,1,15,16,17} for k=11..20 (thorough ..22), for both nonce sizes on both paths and for secretbox.Open: one bit flip in EACH 16-byte block of the ciphertext (above 4096 bytes: the four blocks at either end, the blocks on both sides of every 2^j-byte boundary, j>=6, and 16 (thorough 64) evenly spread blocks), tag bits 0/63/64/127/(length mod 128), ciphertext cut to its length mod 256 and mod 65536 with the genuine tag kept, truncation to those lengths, -1/-16/-64 bytes, +1/16/64 zero bytes; dst in place and prefix+poisoned spare capacity; " +
+		"after all faults of a unit (main and block family) the genuine message must still open with the same object in every dst mode; the key slice given to New/NewX is a private copy that is overwritten right after the constructor returned; " +
 		"each fault opened with dst{prefix+poisoned spare capacity, nil, in place}; non-trivial = distinct (target,length,field,fault kind,byte position); " +
 		"oracle: error/false, no plaintext returned, and for ChaCha20-Poly1305 the would-be plaintext region of dst is all zero or untouched")
 	c.Assume("forgeries that need more than the enumerated modifications are a MAC-security question, not enumerated")
 	c.Assume("X25519 ignores bit 255 of a public key and clamps bits 0,1,2,254,255 of a private key (RFC 7748): those six single-bit flips denote the same key and are not counted as faults")
 	aeadPart(c)
+	tn := time.Now()
 	naclPart(c)
+	c.Set("nacl_seconds", time.Since(tn).Seconds())
+	tn = time.Now()
+	secretboxBlockPart(c)
+	c.Set("block_family_seconds_secretbox", time.Since(tn).Seconds())
 }
 
 func aeadPart(c *vf.Ctx) {
@@ -239,6 +247,9 @@ func aeadPart(c *vf.Ctx) {
 	for _, ph := range phases {
 		chacha20poly1305.VerifC01SetAVX2(ph.avx2)
 		runSteered(c, ph.name, steered)
+		tb := time.Now()
+		aeadBlockPart(c, ph.name, variants)
+		c.Set("block_family_seconds_"+ph.name, time.Since(tb).Seconds())
 		c.ParallelFor(len(units), func(ui int) {
 			u := units[ui]
 			va := variants[u.v]
@@ -249,7 +260,7 @@ func aeadPart(c *vf.Ctx) {
 			} else {
 				key, nonce, pt, ad = c.Bytes("c02-key", u.ci, 32), c.Bytes("c02-nonce", u.ci, va.nonce), c.Bytes("c02-pt", u.ci, u.n), c.Bytes("c02-ad", u.ci, u.an)
 			}
-			aead, err := va.mk(key)
+			aead, err := newAEAD(va.mk, key) // private key copy, overwritten after the constructor returned
 			if err != nil {
 				c.Violation(tgt+": constructor rejects a 32-byte key", err.Error())
 				return
@@ -348,6 +359,28 @@ func aeadPart(c *vf.Ctx) {
 				}
 			}
 
+			// D: after all failed Opens of the unit the genuine message must still open (same object)
+			reopen := func() {
+				for mode := 0; mode < 3; mode++ {
+					in := append(make([]byte, 0, len(sealed)+8), sealed...)
+					var dst []byte
+					switch mode {
+					case 0:
+						dst = arena[:len(prefix):len(arena)]
+						copy(dst, prefix)
+					case 2:
+						dst = in[:0]
+					}
+					back, err := aead.Open(dst, nonce, in, ad)
+					evals++
+					if err != nil || len(back) != len(dst)+len(pt) || !bytes.Equal(back[len(dst):], pt) {
+						c.Violation(tgt+": genuine sealed message does not open after a series of failed Opens", map[string]any{"len": u.n, "adLen": u.an, "dst": mode})
+						return
+					}
+				}
+				oc[tgt+": genuine message accepted after failed Opens"] = struct{}{}
+			}
+
 			if u.ext {
 				// AD-focused faults for the long / width-truncation AD lengths
 				blocks := (u.an + 15) / 16
@@ -405,6 +438,7 @@ func aeadPart(c *vf.Ctx) {
 						try("sealed", fault{"bitflip", i, nil}, aead, nonce, m, ad)
 					}
 				}
+				reopen()
 				c.Eval(evals)
 				for k := range nt {
 					c.Nontrivial(k)
@@ -420,7 +454,7 @@ func aeadPart(c *vf.Ctx) {
 			eachFault(sealed, u.n, 16, ext, func(ft fault) { try("sealed", ft, aead, nonce, ft.data, ad) })
 			eachBitflip(nonce, nil, func(ft fault) { try("nonce", ft, aead, ft.data, sealed, ad) })
 			eachBitflip(key, nil, func(ft fault) {
-				k2, err := va.mk(ft.data)
+				k2, err := newAEAD(va.mk, ft.data)
 				if err != nil {
 					c.Violation(tgt+": constructor rejects a 32-byte key", err.Error())
 					return
@@ -444,6 +478,7 @@ func aeadPart(c *vf.Ctx) {
 				try("ad", fault{"dropped", 0, nil}, aead, nonce, sealed, nil)
 			}
 			try("ad", fault{"replaced-by-ciphertext", 0, nil}, aead, nonce, sealed, sealed)
+			reopen()
 			c.Eval(evals)
 			for k := range nt {
 				c.Nontrivial(k)
@@ -468,7 +503,7 @@ func runSteered(c *vf.Ctx, path string, cases []*aeadsteer.Case) {
 			vname, mk = "xchacha20poly1305", chacha20poly1305.NewX
 		}
 		tgt := vname + "/" + path
-		aead, err := mk(sc.Key)
+		aead, err := newAEAD(mk, sc.Key)
 		if err != nil {
 			c.Violation(tgt+": constructor rejects a 32-byte key", err.Error())
 			return
